@@ -100,6 +100,11 @@ func Minimal() []Item {
    {"name":"IEA"}]},
  "transform_declarations":{"FINAL_OUTPUT":{"object":{"e1":{"xpath":"e1"},"e2":{"xpath":"e2","type":"int"}}}}}`,
 			Inputs: []string{"ISA*0~A*x*1~A*y*2~A*z~IEA~", "ISA~\nA*p*q~\nA*r*5~\nIEA~\n", "ISA~IEA~"}},
+		{Name: "edi/components", Format: "edi", Schema: `{` + hdr("edi") + `,
+ "file_declaration":{"segment_delimiter":"~","element_delimiter":"*","component_delimiter":":","repetition_delimiter":"^","segment_declarations":[
+   {"name":"A","is_target":true,"min":0,"max":-1,"elements":[{"name":"c1","index":1,"component_index":1},{"name":"c2","index":1,"component_index":2},{"name":"e2","index":2,"default":"d"}]}]},
+ "transform_declarations":{"FINAL_OUTPUT":{"object":{"c1":{"xpath":"c1"},"c2":{"xpath":"c2"},"e2":{"xpath":"e2"}}}}}`,
+			Inputs: []string{"A*1:2*3~A*4:5~", "A*1:2~A*1~A*3:4~", "A*1~", "A*:~A*^:^~"}},
 		{Name: "edi/nested", Format: "edi", Schema: `{` + hdr("edi") + `,
  "file_declaration":{"segment_delimiter":"\n","element_delimiter":"*","component_delimiter":":","release_character":"?","segment_declarations":[
    {"name":"ISA","child_segments":[
